@@ -180,6 +180,8 @@ def run_history(sc: dict) -> dict:
         async def idle_call(timeout, rec):
             rec['busy_at_call'] = bool(unfinished())
             rec['t0'] = T()
+            before_call = set(accepted)
+            ndisp_at_call = st['ndisp']
             try:
                 if timeout is None:
                     await bus.wait_until_idle()
@@ -191,9 +193,9 @@ def run_history(sc: dict) -> dict:
             except BaseException as ex:  # noqa
                 rec['exc'] = type(ex).__name__
             rec['t1'] = T()
-            rec['notdone'] = unfinished()
+            rec['notdone'] = [t for t in unfinished() if t in before_call]  # promised: everything accepted before the call
             rec['qsize'] = bus.event_queue.qsize() if bus.event_queue is not None else 0
-            if timeout is None and rec['qsize'] and 'exc' not in rec:
+            if timeout is None and rec['qsize'] and 'exc' not in rec and st['ndisp'] == ndisp_at_call:
                 viol.append(('C15.a', f'wait_until_idle() returned at t={T():g} while {rec["qsize"]} event(s) were still queued on the bus'))
             if timeout is None and rec['notdone']:
                 viol.append(('C15.a', f'wait_until_idle() returned at t={T():g} while events {rec["notdone"][:8]} accepted earlier were still {[state[t] for t in rec["notdone"][:8]]}'))
@@ -228,6 +230,12 @@ def run_history(sc: dict) -> dict:
                         bus.dispatch(e)
                     except Exception:  # noqa
                         pass
+                if len(op) > 2 and op[2] and done_:
+                    # ... and wait_until_idle() is called at once, before the run loop has picked the event up
+                    rec = {'timeout': None}
+                    idle_calls.append(rec)
+                    idle_tasks.append(asyncio.ensure_future(idle_call(None, rec)))
+                    await asyncio.sleep(0)
             elif k == 'retry':
                 # the caller kept the event objects whose dispatch was rejected and dispatches the same objects again
                 again = [(e, by) for (e, by, _x) in rejected if by is None and e.tag not in accepted][: op[1]]
